@@ -24,8 +24,9 @@ NANX = x2xr(xr.const(float("nan")))
 
 
 class BatchV:
-    def __init__(s, n, a, mask=None):
+    def __init__(s, n, a, mask=None, nd=True):
         s.n, s.a, s.mask = n, a, mask
+        s.nd = nd        # known to be an ndarray (False: may be a numpy.float64 scalar, which np.nditer/item assignment reject)
 
 
 class ElemV:
@@ -87,6 +88,17 @@ class BatchExec(HeapExec):
             v = Num(s.elem_x(p, v), True, False)
         return super().assign(p, t, v)
 
+    def ev_Call(s, p, e):
+        if isinstance(e.func, ast.Name) and e.func.id in ("scalar", "array") and len(e.args) == 1:
+            v = s.ev(p, e.args[0])
+            if isinstance(v, BatchV):          # scalar()/array() = np.asarray(..., dtype=float): always an ndarray (0-d for a scalar)
+                return BatchV(v.n, v.a, v.mask, nd=True)
+        if isinstance(e.func, ast.Attribute) and isinstance(e.func.value, ast.Name) and e.func.value.id == "np" and e.func.attr in ("asarray", "atleast_1d", "array") and len(e.args) == 1:
+            v = s.ev(p, e.args[0])
+            if isinstance(v, BatchV):
+                return BatchV(v.n, v.a, v.mask, nd=True)
+        return super().ev_Call(p, e)
+
     def np_call(s, p, name, e):
         if name == "take" and len(e.args) == 2:
             b = s.ev(p, e.args[0]); k = s.ev(p, e.args[1])
@@ -98,6 +110,7 @@ class BatchExec(HeapExec):
                 flags = [ast.unparse(k.value) for k in e.keywords if k.arg == "op_flags"]
                 if flags != ["[['readwrite']]"]:
                     raise Unsupported(f"np.nditer flags {flags}")
+                s.kind_obls.append((f"kind/line{e.lineno - s.fn_line}:np.nditer(readwrite) operand is an ndarray", p.env[e.args[0].id].nd))
                 return IterV(e.args[0].id, p.env[e.args[0].id].n)
         if name == "isnan" and len(e.args) == 1:
             v = s.ev(p, e.args[0])
@@ -119,7 +132,7 @@ class BatchExec(HeapExec):
 
     def merge(s, c, a, b, node):
         if isinstance(a, BatchV) and isinstance(b, BatchV):
-            return BatchV(z3.If(c, a.n, b.n), z3.If(c, a.a, b.a))
+            return BatchV(z3.If(c, a.n, b.n), z3.If(c, a.a, b.a), nd=a.nd and b.nd)
         return super().merge(c, a, b, node)
 
     def with_stmt(s, p, n):
@@ -142,6 +155,7 @@ class BatchExec(HeapExec):
         if isinstance(base, BatchV) and isinstance(t.value, ast.Name):
             m = s.ev(p, t.slice)
             if isinstance(m, BatchV) and m.mask is not None:
+                s.kind_obls.append((f"kind/line{t.lineno - s.fn_line}:masked item assignment target is an ndarray", base.nd))
                 x = x2xr(s.num(v, t).x)
                 p.env[t.value.id] = BatchV(base.n, lam(lambda i: z3.If(z3.Select(m.mask, i), x, z3.Select(base.a, i))))
                 return
@@ -149,7 +163,7 @@ class BatchExec(HeapExec):
 
     def havoc_value(s, v, hint):
         if isinstance(v, BatchV):
-            return BatchV(v.n, z3.FreshConst(IArr, hint))
+            return BatchV(v.n, z3.FreshConst(IArr, hint), nd=v.nd)
         if isinstance(v, (ElemV, IterV)):
             return v
         return super().havoc_value(v, hint)
@@ -166,6 +180,7 @@ class BatchExec(HeapExec):
         return out
 
     view_of = {}
+    kind_obls = []
 
     def havoc(s, p, names, fields, tag):
         fields = set(fields)
@@ -218,7 +233,7 @@ def verify_defuzzify(run):
         def call(s, ex, p, recv, args, kwargs, node):
             ex.raised.append((p.fork(), "DefuzzifierFailure"))
             ex.defuzz_args = (args[0].r, x2xr(ex.num(args[1], node).x), x2xr(ex.num(args[2], node).x))
-            return BatchV(n_d, d)
+            return BatchV(n_d, d, nd=False)        # concrete defuzzifiers may return a numpy.float64 (weighted ones do for float inputs)
 
     def inv_at(ex, p, k, j):
         v = p.env["value"]
@@ -235,6 +250,7 @@ def verify_defuzzify(run):
     ex = BatchExec(src, "variable", sc, interfaces=dict(W.INTERFACES), loops={0: LoopSpec(inv, facts=facts, name="loop0", modifies=set(), inst=lambda ex_, p, k, seq: [inv_at(ex_, p, k, k)])}, fnname=fq)
     ex.interfaces[("Defuzzifier", "defuzzify")] = lambda ex_, p, recv, args, kwargs, node: Defuzz().call(ex_, p, recv, args, kwargs, node)
     ex.view_of = {"value_i": ["value"]}
+    ex.kind_obls = []
     wfh = [canon(H0["Aggregated.minimum"][fz]), canon(H0["Aggregated.maximum"][fz]), canon(H0["OutputVariable.default_value"][self_]), canon(s0)]
     pre = [self_ != NONE, cls_of(self_) == sc.ids["OutputVariable"], fz != NONE, n0 >= 1, n_d >= 1, istar >= 0, istar < n_d] + wfh
     p0 = HPath({"self": RefV(self_, "OutputVariable")}, pre, H0)
@@ -242,6 +258,12 @@ def verify_defuzzify(run):
     rp = {"module": W_N, "func": "replay_cascade", "kwargs": {}, "vars": {}}
     emit(run, ex, fq, [], rp)
     run.add(Obl(f"{fq}/pre.sat", pre + [n_d > 2], None, expect="sat", fn=fq))
+    seen_k = set()
+    for nm, ok in ex.kind_obls:
+        if nm not in seen_k:
+            seen_k.add(nm)
+            run.add(static(f"{fq}/{nm}", all(o for n2, o in ex.kind_obls if n2 == nm), "the value was passed through scalar()/np.asarray before this use" if ok else
+                           "the defuzzifier's result reaches this use unconverted: a numpy.float64 (weighted defuzzifiers, float inputs) raises TypeError here", fn=fq, meta={"replay": rp}))
     enabled = H0["Variable.enabled"][self_]
 
     def unchanged(q):
@@ -307,7 +329,7 @@ def verify_clear(run):
 
 
 def build(run):
-    run.assume("A-REAL", "A-NP", "A-PY", "A-MSG", "A-LOG", "A-LISTVAL", "A-KIND")
+    run.assume("A-REAL", "A-NP", "A-PY", "A-MSG", "A-LOG", "A-LISTVAL")
     rp = {"module": W_N, "func": "replay_cascade", "kwargs": {}, "vars": {}}
     for fq, f in (("variable.OutputVariable.defuzzify", verify_defuzzify), ("variable.OutputVariable.clear", verify_clear)):
         try:
